@@ -20,6 +20,7 @@ Proof.
   rewrite !map_length, combine_length, Hlen, Nat.min_id, !Nat.eqb_refl. cbn [andb].
   repeat (apply andb_true_iff; split).
   - apply forallb_combine_map_S. intros [[u b] r] _. cbn [fst snd]. apply val_eqb_refl.
-  - apply forallb_combine_map_S. intros h _. rewrite negotiate_spec. apply val_eqb_refl.
+  - apply forallb_combine_map_S. intros h _. rewrite negotiate_spec.
+    pose proof (negotiate_acceptable_spec h) as A. destruct (spec_negotiate h) as [x|]; cbn [vopt]; exact A.
 Qed.
 Print Assumptions P_C18_model.
